@@ -9,6 +9,10 @@
 #ifdef __cplusplus
 #include <cstdio>
 #include <cstdlib>
+#ifdef VERIF_ASSERT_STRONG
+// the translation unit of a fuzz target: it provides the strong, throwing definition itself (cxx/fuzz_common.h)
+void verif_assert_fail(const char* expr, const char* file, int line, const char* func);
+#else
 extern "C++" __attribute__((weak)) void
 verif_assert_fail(const char* expr, const char* file, int line, const char* func)
 {
@@ -16,6 +20,7 @@ verif_assert_fail(const char* expr, const char* file, int line, const char* func
   std::fflush(stderr);
   std::abort();
 }
+#endif
 #define ABG_ASSERT(cond) \
   do { if (!bool(cond)) ::verif_assert_fail(#cond, __FILE__, __LINE__, __func__); } while (false)
 #endif
